@@ -2456,6 +2456,7 @@ def normalize_module(tree: ast.Module, extern=None) -> ast.Module:
             if isinstance(n, ast.FunctionDef):
                 n2.dict_key_loops(n)
         tree = Unroll().visit(tree)
+        n2.unroll_reduce(tree)
         for n in ast.walk(tree):
             if isinstance(n, ast.FunctionDef):
                 n2.split_unrolled_locals(n)
@@ -2503,6 +2504,17 @@ def normalize_module(tree: ast.Module, extern=None) -> ast.Module:
                 for _ in range(2):
                     if not n2.collapse_aliases(n):
                         break
+    if n2.unroll_reduce(tree):
+        # (a table that became a local display once its generator helper
+        # was in place)
+        tree = Inliner(tree).run()
+        for n in ast.walk(tree):
+            if isinstance(n, ast.FunctionDef):
+                n2.split_tuple_assigns(n)
+                for _ in range(4):
+                    if not n2.propagate_local_constants(n):
+                        break
+        tree = n2.Idioms3().visit(tree)
     for n in ast.walk(tree):
         if isinstance(n, ast.FunctionDef):
             n2.propagate_block_function_aliases(n)
